@@ -205,6 +205,13 @@ def run_case(case):
                 os.remove(crops.result_path(root, name, i))
                 finished.discard(i)
                 interesting, checked_after_interesting = True, False
+            elif o == "orphan_tmp":
+                # a grower was killed while saving batch i: its temporary
+                # file is left in results/ (it is not a result)
+                i = op["i"] % B + 1
+                with open(crops.result_path(root, name, i) +
+                          ".00112233445566778899aabbccddeeff.tmp", "wb") as f:
+                    f.write(b"\x80\x04unfinished")
             elif o == "swap":
                 # two changes with no look at the progress in between: one
                 # result goes away, another batch is grown (same COUNT of
@@ -316,6 +323,7 @@ def strategy(draw):
                                     "timeout"])}),
         st.fixed_dictionaries({"op": st.just("delete"), "i": ids}),
         st.fixed_dictionaries({"op": st.just("swap"), "i": ids, "j": ids}),
+        st.fixed_dictionaries({"op": st.just("orphan_tmp"), "i": ids}),
         st.fixed_dictionaries({"op": st.just("corrupt"), "i": ids,
                                "how": st.sampled_from(
                                    ["empty", "half", "garbage", "short"])}),
